@@ -328,6 +328,9 @@ def finish(prop, tier, seed, t0, proof, coverage, violations, assumptions, level
     os.makedirs(EVID, exist_ok=True)
     rdir = os.path.join(WORKROOT, "replay")
     os.makedirs(rdir, exist_ok=True)
+    for old in os.listdir(rdir):
+        if old.startswith(prop + "_"):
+            os.remove(os.path.join(rdir, old))
     lines = []
     for f, vs in known:
         lines.append(f"KNOWN-FINDING: property={prop} {f['key']}: {f['what']} ({len(vs)} matching case(s) this run)")
